@@ -344,6 +344,10 @@ def scen_fsm(env, k0, k1, k2, nev, ev0=None, presched=False, reject='cond', init
             env.check('fsm-state', fsm.state == ref.state, info=lambda: (et, fsm.state, ref.state))
             tm = timers()
             env.check('one-timer', len(tm) == (1 if ref.expiry is not None else 0), info=lambda: (tm, ref.expiry))
+            if ref.expiry is not None and len(tm) == 1:
+                # ... and it is due at the expected instant (durations given as strings are never seen firing within
+                # the horizon; a rejected event must not have re-armed the timer)
+                env.check('timer-due', eq_(tm[0].when(), ref.expiry), info=lambda: (et, tm[0].when(), ref.expiry))
             check_get_state()
             if ref.expiry is None and ref.state == 'armed':
                 env.note('armed-without-timer')
@@ -515,6 +519,8 @@ def scen_timer(env, mode, restartable, nev, presched=False, ev0=None):
                       info=lambda: (et, tm.state, ref.state))
             env.check('one-timer', len(timers()) == (1 if ref.expiry is not None else 0),
                       info=lambda: (timers(), ref.expiry))
+            if ref.expiry is not None and len(timers()) == 1:
+                env.check('timer-due', eq_(timers()[0].when(), ref.expiry), info=lambda: (et, timers()[0].when(), ref.expiry))
 
         if mode in ('astable', 'period'):
             # keep astable runs bounded (assumed BEFORE the waits): every gap is shorter than 1.5 periods
